@@ -18,6 +18,12 @@ import AmrK.HypsModel
 import AmrK.HeaderRender
 import AmrK.TasteWFModel
 import AmrK.Names
+import AmrK.CellHRewrite
+import AmrK.HeaderRewrite
+import AmrK.Meets
+import AmrK.Coords
+import AmrK.PestleVF
+import AmrK.NamesMore
 import AmrK.Extrema
 /-! `amrk-driver`: one JSON object per line in, one JSON object per line out.
     Executable definitions of the model only (no Mathlib behind any import). -/
@@ -225,6 +231,26 @@ def opRenderHeader (j : Json) : Except String Json := do
   let back := match parse text none with | .ok _ => "ok" | .refused w => "refused:" ++ w
   return Json.mkObj [("hex", toJson (hex text)), ("good", toJson H.goodB), ("parse", toJson back)]
 
+open Header in
+/-- the header a writing tool derives from an input header: the input text is parsed by the reader model under the
+    limit, then `write_global_header_new_fields` prints from that metadata (`floats`: Python's `str(float(tok))` per token) -/
+def opRewriteHeader (j : Json) : Except String Json := do
+  let text := unhex (← (← j.getObjVal? "hex").getStr?)
+  let limit : Option Int := (j.getObjValAs? Int "limit").toOption
+  let names ← strList (← j.getObjVal? "names")
+  let coord := Py.ofString (← (← j.getObjVal? "coord").getStr?)
+  let fls ← (← j.getObjVal? "floats").getArr?
+  let table ← fls.toList.mapM fun p => do
+    let a ← p.getArr?
+    if h : a.size = 2 then return (Py.ofString (← a[0].getStr?), Py.ofString (← a[1].getStr?)) else throw "pair"
+  let fl : Bytes → Bytes := fun t => (table.lookup t).getD t
+  match parse text limit with
+  | .refused why => return Json.mkObj [("status", "refused"), ("why", toJson why)]
+  | .ok m =>
+    let own := (← (← j.getObjVal? "tool").getStr?) != "combine"
+    let H := rewriteOf fl own m coord names
+    return Json.mkObj [("status", "ok"), ("hex", toJson (hex (render H))), ("good", toJson H.goodB)]
+
 /-! ### well-formedness certificate of a whole plotfile (hypothesis of `Taste.tastePlt_of_wfB`) -/
 def rowsOfJson (j : Json) : Except String (List Taste.BoxRow) := do
   (← j.getArr?).toList.mapM fun r => do
@@ -291,6 +317,17 @@ def opNames (j : Json) : Except String Json := do
     let new ← strs (← j.getObjVal? "new")
     let out := Names.chef n1 kept new
     return Json.mkObj [("fields", toJson out), ("kept_indices", toJson (Names.indices n1 (kept.filter (n1.contains ·))))]
+  | "mandoline" =>
+    match Names.mandolineIdx n1 (← optStrs j "vars") with
+    | none => return Json.mkObj [("refused", toJson true)]
+    | some idx =>
+      return Json.mkObj [("refused", toJson false), ("fields", toJson (Names.mandolineNames n1 idx)),
+        ("idx", toJson (idx.map fun o => match o with | some i => toJson i | none => Json.null)),
+        ("grid", toJson (Names.mandolineGrid idx))]
+  | "chk2plt" =>
+    let g ← (← j.getObjVal? "gradp").getBool?
+    let r ← (← j.getObjVal? "reactions").getBool?
+    return Json.mkObj [("fields", toJson (Names.chkFields n1 g r))]
   | _ => throw "unknown tool"
 
 /-! ### menu's min/max entries -/
@@ -358,6 +395,70 @@ def opPestle (j : Json) : Except String Json := do
   let res := match integral repaired levels with | some x => ratJ x | none => Json.null
   return Json.mkObj [("integral", res), ("spec", ratJ (integralSpec levels)), ("rez", toJson (boxRez repaired levels)),
     ("aligned", toJson (alignedAllB (boxRez repaired levels) levels))]
+
+open Pestle in
+/-- `volume_integral` as called: all components, the field name, the volume-fraction flag and the limit -/
+def opPestleCall (j : Json) : Except String Json := do
+  let names ← (← (← j.getObjVal? "names").getArr?).toList.mapM (·.getStr?)
+  let field ← (← j.getObjVal? "field").getStr?
+  let useVF ← (← j.getObjVal? "volfrac").getBool?
+  let limit : Option Nat := (j.getObjValAs? Nat "limit").toOption
+  let lv ← (← j.getObjVal? "levels").getArr?
+  let levels ← lv.toList.mapM fun l => do
+    let grid ← natList (← l.getObjVal? "grid")
+    let dx ← (← (← l.getObjVal? "dx").getArr?).toList.mapM ratOfJson
+    let bs ← (← l.getObjVal? "boxes").getArr?
+    let boxes ← bs.toList.mapM fun b => do
+      let lo ← natList (← b.getObjVal? "lo")
+      let hi ← natList (← b.getObjVal? "hi")
+      let comps ← (← (← b.getObjVal? "comps").getArr?).toList.mapM fun c => do (← c.getArr?).toList.mapM ratOfJson
+      return ({ lo, hi, comps } : MBox)
+    return ({ grid, dx, boxes } : MLevel)
+  let sel := selected names field useVF limit levels
+  let res := match volumeIntegral names field useVF limit levels with | some x => ratJ x | none => Json.null
+  return Json.mkObj [("integral", res), ("spec", ratJ (integralSpec sel)), ("nlevels", toJson sel.length),
+    ("known", toJson (names.contains field)), ("aligned", toJson (alignedAllB (boxRez true sel) sel))]
+
+/-- colander's level header, derived from the input's -/
+def opRewriteCellH (j : Json) : Except String Json := do
+  let text := unhex (← (← j.getObjVal? "hex").getStr?)
+  let kept ← natList (← j.getObjVal? "kept")
+  let offs ← natList (← j.getObjVal? "offsets")
+  match CellHRewrite.rewrite kept offs text with
+  | some out => return Json.mkObj [("status", "ok"), ("hex", toJson (hex out))]
+  | none => return Json.mkObj [("status", "raises")]
+
+/-- combine's level header, derived from the two inputs' -/
+def opCombineCellH (j : Json) : Except String Json := do
+  let t1 := unhex (← (← j.getObjVal? "hex1").getStr?)
+  let t2 := unhex (← (← j.getObjVal? "hex2").getStr?)
+  let k1 ← natList (← j.getObjVal? "k1")
+  let k2 ← natList (← j.getObjVal? "k2")
+  let offs ← natList (← j.getObjVal? "offsets")
+  match CellHRewrite.combine (k1.length + k2.length) k1 k2 offs t1 t2 with
+  | some out => return Json.mkObj [("status", "ok"), ("hex", toJson (hex out))]
+  | none => return Json.mkObj [("status", "raises")]
+
+/-- which boxes a plotfile-format slice lists: per box its extent along the normal -/
+def opMeets (j : Json) : Except String Json := do
+  let G ← ratOfJson (← j.getObjVal? "G")
+  let pos ← ratOfJson (← j.getObjVal? "pos")
+  let bs ← (← j.getObjVal? "boxes").getArr?
+  let flags ← bs.toList.mapM fun b => do
+    let a ← b.getArr?
+    if h : a.size = 2 then
+      return Meets.meets G pos (← ratOfJson a[0]) (← ratOfJson a[1])
+    else throw "box"
+  return Json.mkObj [("meets", toJson flags)]
+
+/-- the coordinate array of one axis of a slice / flattened grid -/
+def opCoords (j : Json) : Except String Json := do
+  let lo ← ratOfJson (← j.getObjVal? "lo")
+  let hi ← ratOfJson (← j.getObjVal? "hi")
+  let dx ← ratOfJson (← j.getObjVal? "dx")
+  let n ← (← j.getObjVal? "n").getNat?
+  return Json.mkObj [("axis", toJson ((Coords.axis lo hi dx n).map ratJ)), ("exact", toJson (decide (hi = lo + (n : Rat) * dx))),
+    ("centres", toJson (decide (Coords.axis lo hi dx n = Coords.centres lo dx n)))]
 
 /-! ### global Header -/
 open Header in
@@ -469,6 +570,12 @@ partial def loop (h : IO.FS.Stream) (out : IO.FS.Stream) (files : Std.HashMap St
         | "taste_plt" => opTastePlt files j
         | "column" => opColumn j
         | "pestle" => opPestle j
+        | "pestle_call" => opPestleCall j
+        | "coords" => opCoords j
+        | "meets" => opMeets j
+        | "rewrite_cellh" => opRewriteCellH j
+        | "combine_cellh" => opCombineCellH j
+        | "rewrite_header" => opRewriteHeader j
         | "header" => opHeader j
         | "colander" => opColander j
         | "combine" => opCombine j
